@@ -217,3 +217,74 @@ theorem nodeCount_mk_le (lim fresh : Nat) (k : Kind) (attrs : List Nat) (ks : Li
     omega
 
 end SLE.SV
+
+namespace SLE.SV
+
+mutual
+/-- Any transformer that hands back well-formed kids yields well-formed trees. -/
+theorem wf_transform (f : Transformer)
+    (hf : ∀ k a ks k' a' ks', WFList ks → f k a ks = some (k', a', ks') → WFList ks') :
+    ∀ t : SV, WF t → WF (transform f t)
+  | .node k attrs ks s, h => by
+    simp only [WF] at h
+    rw [transform]
+    cases hfk : f k attrs ks with
+    | none => simp only []; exact wf_rebuild k attrs _ (wfList_transformList f hf ks h.2)
+    | some r =>
+      obtain ⟨k', a', ks'⟩ := r
+      simp only []
+      exact wf_rebuild k' a' ks' (hf k attrs ks k' a' ks' h.2 hfk)
+theorem wfList_transformList (f : Transformer)
+    (hf : ∀ k a ks k' a' ks', WFList ks → f k a ks = some (k', a', ks') → WFList ks') :
+    ∀ ts : List SV, WFList ts → WFList (transformList f ts)
+  | [], _ => trivial
+  | t :: ts, h => by
+    simp only [WFList] at h
+    simp only [transformList, WFList]
+    exact ⟨wf_transform f hf t h.1, wfList_transformList f hf ts h.2⟩
+end
+
+/-- `mk` keeps the node (with its true size) exactly when the real node count fits the limit,
+and otherwise returns the one-node opaque value. -/
+theorem mk_cull_iff (lim fresh : Nat) (k : Kind) (attrs : List Nat) (ks : List SV) (h : WFList ks) :
+    (nodeCountList ks + 1 ≤ lim → mk (some lim) fresh k attrs ks = .node k attrs ks (nodeCountList ks + 1)) ∧
+    (lim < nodeCountList ks + 1 → mk (some lim) fresh k attrs ks = mkValue fresh) := by
+  have hc := childSize_eq_nodeCountList ks h
+  unfold mk
+  simp only [hc]
+  constructor
+  · intro hle
+    have : ¬ (nodeCountList ks + 1 > lim) := by omega
+    simp [this]
+  · intro hlt
+    have : nodeCountList ks + 1 > lim := by omega
+    simp [this, mkValue]
+
+end SLE.SV
+
+namespace SLE.SV
+
+theorem nodeCount_foldNode_le (k : Kind) (attrs : List Nat) (ks : List SV) :
+    nodeCount (foldNode k attrs ks) ≤ nodeCountList ks + 1 := by
+  rcases foldNode_shape k attrs ks with ⟨w, hw, _⟩ | h
+  · rw [hw]; simp [mkKnown, nodeCount, nodeCountList]
+  · rw [h]; simp [rebuild, nodeCount]
+
+mutual
+/-- Folding never grows a tree. -/
+theorem nodeCount_fold_le : ∀ t : SV, nodeCount (fold t) ≤ nodeCount t
+  | .node k attrs ks s => by
+    rw [fold]
+    have h1 := nodeCount_foldNode_le k attrs (foldList ks)
+    have h2 := nodeCountList_foldList_le ks
+    simp only [nodeCount]; omega
+theorem nodeCountList_foldList_le : ∀ ts : List SV, nodeCountList (foldList ts) ≤ nodeCountList ts
+  | [] => Nat.le_refl _
+  | t :: ts => by
+    simp only [foldList, nodeCountList]
+    have := nodeCount_fold_le t
+    have := nodeCountList_foldList_le ts
+    omega
+end
+
+end SLE.SV
